@@ -476,6 +476,9 @@ class Routine(TimeThread, Stream):
                 else:
                     return self._terminal_value
 
+            if self.state == self.State.Running:
+                raise RoutineException('cannot be resumed within itself')
+
             self.parent = _libsc3.main.current_tt
             _libsc3.main.current_tt = self
             self._m_seconds = self.parent._seconds
